@@ -151,6 +151,22 @@ class TDEmpty(typing.TypedDict):
     pass
 class TDPEmpty(typing.TypedDict, total=False):
     pass
+@dataclasses.dataclass
+class DCX:
+    a: int
+    cv: typing.ClassVar[int] = 3
+    made: list = dataclasses.field(default_factory=list, init=False)
+class DCXSub(DCX):            # a subclass that adds no annotation of its own
+    def total(self): return self.a
+class PlainNoInit:
+    x: int
+    y: str = "y"
+class PlainNoInitSub(PlainNoInit):
+    pass
+class PlainSub2(Plain):
+    def hello(self): return "hi"
+class SlotsSub(Slots):
+    __slots__ = ()
 class Outer:
     class Mid:
         @dataclasses.dataclass
@@ -559,7 +575,46 @@ def check_special(col):
             got = list(r.parameters) if helper == "signature" else list(r)
             if got != want:
                 col.violation("agrees-with-runtime", case, f"{helper}({name}) names {got!r}, the TypedDict declares {want!r}", bucket=f"{helper}|typeddict")
+    # the type-hint helpers on every structured flavour and on subclasses (also ones that declare nothing themselves, also
+    # under stringified annotations): what typing.get_type_hints says, names in the same order
+    FUT = _future_module().__dict__
+    hinted = [(n, N[n]) for n in ("DC", "DCF", "NT", "NTSub", "Plain", "PlainSub2", "Slots", "SlotsSub", "DCSub", "DCX", "DCXSub", "PlainNoInit",
+                                  "PlainNoInitSub", "TD", "TDSub", "func")] + [("future:" + n, FUT[n]) for n in ("FDC", "FDCSub", "FPlain", "FPlainSub")]
+    for name, obj in hinted:
+        want = {k: v for k, v in typing.get_type_hints(obj).items()}
+        if not want:
+            continue
+        for helper, kw in (("get_type_hints", {}), ("get_type_hints", {"exhaustive": False}), ("cached_type_hints", {})):
+            col.ev()
+            col.nt(f"{helper}|{kw}|{name}")
+            k, r = tl.call(getattr(I, helper), obj, **kw)
+            case = {"predicate": helper, "object": "callable:" + name}
+            if k == "exc":
+                col.violation("never-raises", case, f"{helper}({name}) raised {tl.exc_name(r)}", bucket=f"{helper}|hints")
+            elif list(r.items()) != list(want.items()):
+                col.violation("agrees-with-runtime", case, f"{helper}({name}{', exhaustive=False' if kw else ''}) = {r!r}, typing.get_type_hints says {want!r}"[:500],
+                              bucket=f"{helper}|hints")
     col.exhaustive_done = True
+
+
+_FUT = None
+
+
+def _future_module():
+    """structured classes whose annotations are stringified (from __future__ import annotations)"""
+    global _FUT
+    if _FUT is None:
+        import __future__ as _f
+        src = ("import dataclasses, typing, decimal\n"
+               "@dataclasses.dataclass\nclass FDC:\n    a: int\n    d: decimal.Decimal = decimal.Decimal(1)\n    cv: typing.ClassVar[int] = 3\n"
+               "class FDCSub(FDC):\n    def total(self): return self.a\n"
+               "class FPlain:\n    x: int\n    y: typing.Optional[FDC] = None\n"
+               "class FPlainSub(FPlain):\n    pass\n")
+        m = types.ModuleType("c17_future_mod")
+        sys.modules[m.__name__] = m
+        exec(compile(src, m.__name__, "exec", flags=_f.annotations.compiler_flag, dont_inherit=True), m.__dict__)  # noqa: S102
+        _FUT = m
+    return _FUT
 
 
 def check_random_chain(c, col):
